@@ -8,7 +8,8 @@ Theorems: Pyxv/Proofs/C07.lean about the translation-table pipeline `Pyxv.Itext`
 Tie: every generated form is converted by the implementation; the implementation's *built* survey
 (builder output, before `xml()`) is handed to the Lean model (`itext.model`), whose translations
 (language order, default flags, id order), body refs, bind refs and itextIds must equal what is
-read from the implementation's XForm.  Oracle: the Lean predicate `Itext.holds` (`itext.holds`)
+read from the implementation's XForm; the DOM of every <value> (`itext.doms`: text chunks interleaved with one <output> per
+${reference}, C06's mixed channel) must equal the implementation's serialised <value> element.  Oracle: the Lean predicate `Itext.holds` (`itext.holds`)
 evaluated on the implementation's own XForm, for every accepted form (inside the fragment or not).
 """
 
@@ -29,7 +30,8 @@ RULE = (
     "unused lists, randomized selects; bind messages incl. jr:noAppErrorString plain / with ${ref} / translated; language "
     "names differing only by letter case; default_language by setting and/or argument, also a case variant of a "
     "language) plus directed families (F6 shapes, names containing "
-    "'guidance_hint', hint+guidance in one language only); distinct by canonical hash of form+arguments; "
+    "'guidance_hint', hint+guidance in one language only; texts with 0-3 ${references} of every shape in every "
+    "text-bearing itext slot, per language, outside and inside a repeat); distinct by canonical hash of form+arguments; "
     "non-trivial = accepted by the converter and at least one jr:itext reference or itextId in the output"
 )
 
@@ -177,6 +179,50 @@ def oracle(ctx, case, obs):
     return v["ok"]
 
 
+def dom_stream(ctx, case, x, obs):
+    """DOM level of every <value> (phase 8): the model's `ItextOut.outDoms` (C06's mixed channel under the tag `value`
+    with the reference table of the survey, `form` attribute added) against the children and attributes of the
+    implementation's <value> elements — text chunks verbatim interleaved with one <output value=…/> per ${reference}."""
+    md = ctx.driver.call("itext.doms", survey=x)
+    if md["outcome"] != "ok":
+        ctx.mismatch("itext.doms outcome differs from itext.model", case, "ok", md["outcome"])
+        return
+    if [t["lang"] for t in md["translations"]] != [t["lang"] for t in obs["translations"]]:
+        ctx.mismatch("DOM stream: languages", case, [t["lang"] for t in obs["translations"]], [t["lang"] for t in md["translations"]])
+        return
+    for tm, ti in zip(md["translations"], obs["translations"]):
+        if [t["id"] for t in tm["texts"]] != ti["ids"]:
+            ctx.mismatch("DOM stream: text ids", case, ti["ids"], [t["id"] for t in tm["texts"]])
+            return
+        if ti.get("valueXml") is None:
+            ctx.mismatch("DOM stream: serialised <value> elements of the itext block could not be dealt out", case, None, None)
+            return
+        for txm, forms_i, doms_i in zip(tm["texts"], ti["forms"], ti["valueXml"]):
+            if [v["form"] for v in txm["values"]] != forms_i:
+                ctx.mismatch("DOM stream: <value form> list", case, forms_i, [v["form"] for v in txm["values"]])
+                continue
+            for vm, di in zip(txm["values"], doms_i):
+                d = vm["dom"]
+                if d is None:
+                    ctx.count("dom:not-stated" + ("" if txm["stated"] else ":repeat-context"))
+                    continue
+                if "unsupported" in d:
+                    ctx.count("dom:unsupported:" + d["unsupported"])
+                    continue
+                if "err" in d:
+                    ctx.mismatch("DOM stream: model rejects a <value> text, implementation accepts", case,
+                                 {"lang": ti["lang"], "id": txm["id"], "impl": di}, d)
+                    continue
+                if d["tag"] != "value" or d["xml"] != di:
+                    ctx.mismatch("DOM of <value> (attributes, text chunks, <output> elements in order), as serialised", case,
+                                 {"lang": ti["lang"], "id": txm["id"], "impl": di}, d["xml"])
+                n_out = sum(1 for k in d["kids"] if k[0] == "e")
+                ctx.count("dom:compared")
+                if n_out:
+                    ctx.count("dom:compared-with-output")
+                    ctx.count("dom:outputs:" + ("1" if n_out == 1 else "2" if n_out == 2 else ">2"))
+
+
 def one_case(ctx, case, tag="gen"):
     form, kw = case["form"], case.get("kw", {})
     r = impl.run(form, **kw)
@@ -221,6 +267,8 @@ def one_case(ctx, case, tag="gen"):
                             ctx.mismatch("<value> text", case, {"lang": ti["lang"], "id": pid, "impl": vi}, vm)
                         ctx.count("values-compared", sum(1 for a in vm if a is not None))
                         ctx.count("values-not-stated", sum(1 for a in vm if a is None))
+            if mt == it:
+                dom_stream(ctx, case, x, obs)
             for k in ("bodyRefs", "bindRefs", "itemIds"):
                 if obs[k] != model[k]:
                     ctx.mismatch(k, case, obs[k], model[k])
@@ -386,6 +434,49 @@ def directed_cases(rng):
     return out
 
 
+def dom_directed_cases():
+    """Seed-independent family for the DOM stream (phase 8): texts with 0..3 ${references} (plain, last-saved, adjacent,
+    markup characters around them, unknown / ambiguous / malformed names, the survey root, an instance() expression) in
+    every text-bearing itext slot — translated label, hint, guidance hint, constraint / required message, choice label —
+    with a different text per language, outside and inside a repeat."""
+    texts = [
+        "${q0}", "a ${q0} b ${q1} c", "${q0}${q1}", "x ${last-saved#q0} y", "1 < 2 & ${q0} > 3 \"q\" 'r'",
+        "${q0} }", "$ {q0} ${q1} $", "a ${ q0 } b", "${nope}", "${q0", "l1\n${q0}\nl3", "${data} and ${g}",
+        "${dup}", "é ${q1} ü ${q0} ß ${q1}", "<output value=\"x\"/> ${q0}", "-", "- ${q0}", "{q0} ${q0} {",
+        "instance('c')/root/item[name=${q0}]/label", "${q0} ]]> &amp; &#65;", "  ${q0}  ",
+    ]
+    slots = ["label", "hint", "guidance_hint", "constraint_message", "required_message", "choice"]
+    out = []
+    for i, t in enumerate(texts):
+        for j, slot in enumerate(slots):
+            t2 = texts[(i + j + 1) % len(texts)]
+            q = {"type": "integer", "name": "n", "label::en": "N", "constraint": ". > 0", "required": "yes"}
+            ch = [{"list_name": "c", "name": "a", "label::en": "A", "label::fr": "Af"},
+                  {"list_name": "c", "name": "b", "label::en": "B"}]
+            if slot == "choice":
+                ch[1]["label::en"] = t
+                ch[1]["label::fr"] = t2
+            else:
+                q[f"{slot}::en"] = t
+                if j % 2:
+                    q[f"{slot}::fr"] = t2
+                else:
+                    q[slot] = t2
+            base = [{"type": "text", "name": "q0", "label": "Q0"}, {"type": "text", "name": "q1", "label::fr": "Q1"},
+                    {"type": "begin group", "name": "g", "label": "G"}, {"type": "text", "name": "dup", "label": "D"},
+                    {"type": "end group"},
+                    {"type": "begin group", "name": "h", "label": "H"}, {"type": "text", "name": "dup", "label": "D"},
+                    {"type": "end group"}]
+            sel = {"type": "select_one c", "name": "s", "label::en": "S"}
+            out.append({"form": {"survey": base + [q, sel], "choices": ch}, "kw": {}})
+            if i % 3 == 0:
+                # the same element inside a repeat (relative references: outside the stated fragment) next to one outside
+                out.append({"form": {"survey": base + [{"type": "begin repeat", "name": "r", "label::en": t}, dict(q, name="m"),
+                                                        {"type": "text", "name": "q2", "label::en": t2}, {"type": "end repeat"},
+                                                        dict(q), sel], "choices": ch}, "kw": {}})
+    return out
+
+
 def fn_cases(ctx):
     """Call-for-call comparison of the string functions of the model with the implementation's."""
     import os
@@ -419,6 +510,8 @@ def explore(ctx, factor, bs):
     fn_cases(ctx)
     for case in directed_cases(rng):
         one_case(ctx, case, tag="directed")
+    for case in dom_directed_cases():
+        one_case(ctx, case, tag="directed-dom")
     n = ctx.pick(2000, 45000) * min(factor, 3)
     for i in range(n):
         directed = {}
